@@ -2,8 +2,8 @@
    enumeration are C19's (about the definitions translated from spaces.py); closure is proved for ALL parameters,
    for EVERY event (not only positive-probability ones). *)
 From Coq Require Import ZArith List Bool Lia.
-From MdpaxV Require Import Model.ListUtil Model.Spaces Model.Problems Model.ProblemOps Proofs.C19P Proofs.C14P Proofs.GenDeMoorP Proofs.GenMirjaliliP.
-From MdpaxGen Require GenDeMoor GenMirjalili.
+From MdpaxV Require Import Model.ListUtil Model.Spaces Model.Problems Model.ProblemOps Proofs.C19P Proofs.C14P Proofs.GenDeMoorP Proofs.GenMirjaliliP Proofs.GenHendrixP.
+From MdpaxGen Require GenDeMoor GenMirjalili GenHendrix.
 Import GenDeMoor.
 Import ListNotations.
 Open Scope Z_scope.
@@ -53,6 +53,18 @@ Proof.
   apply mirjalili_closed_l; try assumption. simpl. lia.
 Qed.
 Print Assumptions generated_mirjalili_transition_closed.
+
+Theorem generated_hendrix_transition_closed : forall m Qa Qb c1 c2 c3 c4 state qa qb ia ib, (1 <= m)%nat -> 0 <= Qa -> 0 <= Qb ->
+  length state = (m + m)%nat -> Forall (fun x => 0 <= x <= Qa) (firstn m state) -> Forall (fun x => 0 <= x <= Qb) (skipn m state) ->
+  0 <= qa <= Qa -> 0 <= qb <= Qb -> 0 <= ia -> 0 <= ib ->
+  let nxt := fst (GenHendrix.gen_transition m c1 c2 c3 c4 state [qa; qb] [ia; ib]) in
+  Forall (fun x => 0 <= x <= Qa) (firstn m nxt) /\ Forall (fun x => 0 <= x <= Qb) (skipn m nxt) /\ length nxt = (m + m)%nat.
+Proof.
+  intros m Qa Qb c1 c2 c3 c4 state qa qb ia ib Hm HQa HQb HL Ha Hb Hqa Hqb Hia Hib nxt. unfold nxt.
+  rewrite (proj1 (gen_hx_transition_eq m c1 c2 c3 c4 state qa qb ia ib HL)).
+  now apply hendrix_closed_l.
+Qed.
+Print Assumptions generated_hendrix_transition_closed.
 
 Theorem forest_closed : forall S age cut fire, 1 <= S -> 0 <= age <= S - 1 -> 0 <= forest_next S age cut fire <= S - 1.
 Proof. exact forest_closed_l. Qed.
